@@ -73,7 +73,7 @@ CHECK_DEADLOCK FALSE
     hist = os.path.join(wd, "hist.ndjson")
     uni = ["-topics", json.dumps(u["topics"]), "-names", json.dumps(u["names"]), "-filters", json.dumps(u["filters"])]
     rc, out, err = lib.run_drive(drive_race, ["tree-conc", "-out", hist, "-histories", str(nhist), "-seed", str(seed),
-                                              "-threads", "16" if tier == "thorough" else "6", "-ops", "5"] + uni, timeout=3000)
+                                              "-threads", "9" if tier == "thorough" else "6", "-ops", "5"] + uni, timeout=3000)
     # long histories: one writer toggling a hot topic, spinning readers (atomicity windows), no race detector (speed)
     rc2, out2, err2 = lib.run_drive(drive, ["tree-conc", "-out", hist + ".long", "-histories", str(nlong), "-seed", str(seed + 1),
                                             "-mode", "long", "-ops", "150"] + uni, timeout=3000)
